@@ -2,13 +2,13 @@
 From Coq Require Import List NArith Bool.
 From Frugal Require Import Bytes Wire Skip Values Desc Spec Encode Decode Checks Tags State Bitset Alloc DescMap Conc LegacyDefs.
 From Frugal.gen Require Import Params.
-From Frugal.proofs Require Import GenParams GenTables RoundTrip.
+From Frugal.proofs Require Import GenDecParams GenDepthOdd GenTables RoundTrip.
 From Frugal.props Require Import Examples.
 From Frugal.proofs Require Import MapOrder.
 Import ListNotations.
 
 Theorem C01_roundtrip : forall env pool sid v rest,
-  params_ok = true -> tables_ok = true -> env_ok env = true -> init_ok env = true ->
+  dec_params_ok = true -> depth_odd_ok = true -> tables_ok = true -> env_ok env = true -> init_ok env = true ->
   has_type env (TStruct sid) v = true -> Spec.holders_empty v = true ->
   enums32 env (TStruct sid) v = true -> req_complete env (TStruct sid) v = true ->
   (2 * vdepth v + 1 <= S (N.to_nat maxDepthLimit))%nat ->
@@ -19,7 +19,7 @@ Print Assumptions C01_roundtrip.
 
 (* the reference decoder inverts the reference encoder *)
 Theorem C01_absorb_denote : forall env sid v,
-  params_ok = true -> env_ok env = true -> init_ok env = true ->
+  enc_params_ok = true -> env_ok env = true -> init_ok env = true ->
   has_type env (TStruct sid) v = true -> req_complete env (TStruct sid) v = true ->
   absorb_top env sid (denote env (TStruct sid) v) (fresh env sid) = AOk (norm_top env sid v).
 Proof. exact absorb_top_denote. Qed.
@@ -38,7 +38,7 @@ Proof. vm_compute. reflexivity. Qed.
    order the encoder iterates in (v' instead of v), the round trip succeeds and returns the
    normalised value up to map-entry order. *)
 Theorem C01_roundtrip_up_to_order : forall env pool sid v v' rest,
-  params_ok = true -> tables_ok = true -> env_ok env = true -> init_ok env = true ->
+  dec_params_ok = true -> depth_odd_ok = true -> tables_ok = true -> env_ok env = true -> init_ok env = true ->
   has_type env (TStruct sid) v = true -> Spec.holders_empty v = true ->
   enums32 env (TStruct sid) v = true -> req_complete env (TStruct sid) v = true ->
   (2 * vdepth v + 1 <= S (N.to_nat maxDepthLimit))%nat -> vperm v v' ->
@@ -62,5 +62,6 @@ Proof. pose proof order_matters_without_keys_distinct as H. tauto. Qed.
 
 (* the side conditions on the generated constants and tables that the theorems above assume hold
    for what the translator read from the sources of this run *)
-Theorem C01_side_conditions : params_ok = true /\ tables_ok = true.
-Proof. split; [exact params_ok_holds | exact tables_ok_holds]. Qed.
+(* [enc_params_ok], which C01_absorb_denote assumes, is part of [dec_params_ok] (ParamsSplit.dec_enc) *)
+Theorem C01_side_conditions : dec_params_ok = true /\ depth_odd_ok = true /\ tables_ok = true.
+Proof. split; [exact dec_params_ok_holds | split; [exact depth_odd_ok_holds | exact tables_ok_holds]]. Qed.
